@@ -112,6 +112,9 @@ fn macro_cases() -> Vec<Vec<Token>> {
         v.push(vec![tok("DCS!z1", &format!("\x1bP1;0;1!z!{};41424344;\x1b\\", n)), tok("CSI*z", "\x1b[1*z")]);
         v.push(vec![tok("DCS!z1", &format!("\x1bP1;0;1!z!{};;!{};41;\x1b\\", n, n)), tok("CSI*z", "\x1b[1*z")]);
         v.push(vec![tok("DCS!z1", &format!("\x1bP1;0;1!z!{};1B5B312A7A;\x1b\\", n)), tok("CSI*z", "\x1b[1*z")]);
+        // last repeat group not closed by `;` before ST
+        v.push(vec![tok("DCS!z1", &format!("\x1bP1;0;1!z!{};41\x1b\\", n)), tok("CSI*z", "\x1b[1*z")]);
+        v.push(vec![tok("DCS!z1", &format!("\x1bP1;0;1!z4142!{};4344\x1b\\", n)), tok("CSI*z", "\x1b[1*z")]);
     }
     // macro invocation from inside a DCS
     v.push(vec![def(1, &hex("\x1bPxx\x1b[1*z")), tok("DCSmacroinside", "\x1bPyy\x1b[1*zzz\x1b\\")]);
@@ -182,6 +185,16 @@ pub fn run(run: &mut Run, seed: u64, thorough: bool, replay: Option<&str>, corpu
         tnd.extend(b"TUNDRA24");
         tnd.extend([1u8, 0xFF, 0xFF, 0xFF, 0xFF, 0xFF, 0xFF, 0xFF, 0xFF, 65]);
         cases.push(format!("file tnd {}", hex(&tnd)));
+        // a position record far down the page (the loader caps rows below 65535)
+        for y in [65534u32, 65535, 3_000_000, 0x7FFF_FFFF] {
+            let mut t = vec![24u8];
+            t.extend(b"TUNDRA24");
+            t.push(1);
+            t.extend(y.to_be_bytes());
+            t.extend(0u32.to_be_bytes());
+            t.push(65);
+            cases.push(format!("file tnd {}", hex(&t)));
+        }
         cases.push(format!("file ans {}", hex(b"\x1b[2000000000BX")));
         cases.push(format!("file ans {}", hex(b"\x1b[2000000000CX\x1b[99999999b")));
         cases.push(format!("file bin {}", hex(&[65u8, 7])));
@@ -229,7 +242,7 @@ pub fn run(run: &mut Run, seed: u64, thorough: bool, replay: Option<&str>, corpu
                         Some(&"F") => {
                             let ms: u128 = p[3].parse().unwrap_or(0);
                             let cells: u64 = p[4].parse().unwrap_or(0);
-                            if ms >= slow_ms() || cells > 4_000_000 {
+                            if ms >= slow_ms() || cells > 8_000_000 {
                                 run.oracle_fail(&format!("file:{}:slow-or-huge", p[1]), &short, &format!("loader {} took {} ms, allocated {} cells", p[1], ms, cells));
                             }
                             run.evaluations += 1;
